@@ -262,7 +262,7 @@ Section Build.
       | BErr e => BErr e
       end
 
-    | TBlock ch =>
+    | TBlock _ ch =>
       let inner_up := UBlock bn up [] O in
       let inner_bn := mkbn [[]] false in
       match build ch MLeaf inner_bn inner_up st with
